@@ -398,7 +398,13 @@ func method(m *spec.Method) {
 		if m.Payload != nil {
 			topAttr(m.Payload, func(args ...any) { dsl.Payload(args[0], args[1:]...) })
 		}
-		if m.Result != nil {
+		if m.Result != nil && m.Collection {
+			if m.FixedView != "" {
+				dsl.Result(dsl.CollectionOf(typeArg(m.Result.Type)), func() { dsl.View(m.FixedView) })
+			} else {
+				dsl.Result(dsl.CollectionOf(typeArg(m.Result.Type)))
+			}
+		} else if m.Result != nil {
 			if m.FixedView != "" {
 				dsl.Result(typeArg(m.Result.Type), func() { dsl.View(m.FixedView) })
 			} else {
